@@ -314,6 +314,12 @@ class CFG:
     # ---- graph algorithms
 
     def reachable(self) -> set:
+        r = getattr(self, "_reach", None)
+        if r is None:
+            r = self._reach = self._reachable()
+        return r
+
+    def _reachable(self) -> set:
         seen = {self.entry}
         stack = [self.entry]
         while stack:
@@ -356,6 +362,8 @@ class CFG:
         return dom
 
     def dominates(self, a: Node, b: Node) -> bool:
+        if b not in self.reachable():
+            return True  # an unreachable copy (e.g. the return-copy of a finally whose try never returns)
         d = self.dominators()
         return b in d and a in d[b]
 
